@@ -376,6 +376,18 @@ class SymStr(object):
     def strip(self, chars=None):
         return self.lstrip(chars).rstrip(chars)
 
+    def replace(self, old, new, count=-1):
+        """str.replace for a concrete one-character pattern and a concrete replacement (one branch per character)."""
+        if count != -1 or not isinstance(old, str) or len(old) != 1 or not isinstance(new, str):
+            raise Unsupported("replace with a symbolic or multi-character pattern")
+        out = []
+        for ch in self.c:
+            if self._in_set(ch, old):
+                out.extend(list(new))
+            else:
+                out.append(ch)
+        return SymStr(self.e, out)
+
     def split(self, sep=None, maxsplit=-1):
         if maxsplit != -1:
             raise Unsupported("split maxsplit")
